@@ -89,6 +89,15 @@ class SerWorld:
         n_items, text = r
         if n_items != 1:
             return f"serialize reports {n_items} items consumed for one value"
+        # the produced text exactly (value at the very end of the string) ...
+        st, d = self.meth(comb, "deserialize", env, text, 0)
+        if st != "ok":
+            return f"text {text!r} (nothing after it): deserialize raises {d}"
+        if d is None:
+            return f"text {text!r} (nothing after it): deserialize rejects what serialize produced"
+        if d[0] != len(text) or not (isinstance(d[1], list) and len(d[1]) == 1 and same_value(d[1][0], value)):
+            return f"text {text!r} (nothing after it): deserialize yields {d!r}"
+        # ... and followed by junk (exact consumption)
         st, d = self.meth(comb, "deserialize", env, text + "~~", 0)
         if st != "ok":
             return f"text {text!r}: deserialize raises {d}"
